@@ -164,7 +164,13 @@ SPEC = {
                  "C02_refuted"],
     "more": [{"module": "C02r", "target": "props/C02r.vo",
               "theorems": ["C02_respelled_any_tables", "C02_respelled_partial", "C02_located_r_non_numchars",
-                           "C02_respelled_unguarded_refuted"]}],
+                           "C02_respelled_unguarded_refuted"]},
+             # the token-level slice clause (proofs/SpanTokenProofs.v: lexer locality + a node predicate kept by
+             # every semantic action)
+             {"module": "C02t", "target": "props/C02t.vo",
+              "theorems": ["C02_token_any_tables", "C02_token_partial", "C02_guarded", "C02_token_exact",
+                           "C02t_lexer_locality", "C02t_context_free_lexing_refuted", "C02t_any_slice_refuted",
+                           "C02t_nonvacuous"]}],
     "correspond": correspond,
     "statement": "if parsing s returns a tree and no semantic action dropped text or re-spelled a token (ghost events "
                  "of the model), then for every node s[pos:pos+size] = str(node), the slice widened by head/tail = "
@@ -175,14 +181,27 @@ SPEC = {
                  "re-spelling) is refuted by 'foo :bar' (F1). C02r: under the single guard 'no text was dropped' "
                  "(dropped_texts s = [], i.e. not F1; numerals may be re-spelled) every node's two slices equal its "
                  "printed forms up to numeral re-spelling at STRING level (resp), with exact spans, tiling and root "
-                 "span; the token-level form of the slice clause (lexing the slice) is not proved",
+                 "span. C02t (C02_token_partial): under the same single guard the TOKEN-level clause holds for every "
+                 "node at every path: s[pos:pos+size] is exactly the text of a contiguous non-empty run of the input's "
+                 "tokens between blanks, the widened slice adds the node's blank head and tail, each slice lexed in "
+                 "isolation yields the (type, lexeme) sequence of that run, and str(node) / str(node, head_tail=True) "
+                 "are the slices' tokens rendered with only APPROX/BOOST numerals re-spelled as numerically equal "
+                 "plain decimals (C01.respelled) - i.e. C02.C02_statement itself under the guard (C02_guarded); for "
+                 "ANY tables (C02_token_any_tables); with no ghost event the slices are the printed forms and these "
+                 "lex to the node's tokens (C02_token_exact). Lexer locality (C02t_lexer_locality) needs no side "
+                 "condition at token boundaries although TIME_RE's look-behind reads the consumed prefix; below token "
+                 "level it fails ('12:30' inside 'T12:30': C02t_context_free_lexing_refuted, C02t_any_slice_refuted)",
     "level_text": "Coq proof: a recursive layout predicate (pos = offset, size = printed length, children where the "
                   "printed form puts them) is kept by every semantic action (HeadTailManager.pos arithmetic with "
                   "head/tail transfers, create_operation flattening) and by the LR driver for any tables, starting "
                   "from lexer positions proved to be offsets; it implies the slice/tiling clauses for every node. "
                   "C02r redoes the invariant on the ORIGINAL text of each node (sizes count the numeral lexemes as "
-                  "written), so re-spelled numerals are covered by proof at string level. PARTIAL: inputs that lose "
-                  "text (F1) and the token-level reading of 'up to re-spelling' are covered by correspondence and "
+                  "written), so re-spelled numerals are covered by proof at string level. C02t adds the token level: a "
+                  "lexer-locality theorem (a run of the input's tokens re-read in isolation between blanks lexes to "
+                  "the same tokens; a token start never exposes TIME_RE's look-behind window) and a node predicate "
+                  "(pos/size designate the text of a token run, the printed inner text is that run with numerals "
+                  "re-spelled, heads/tails are blank) kept for every node by every semantic action and by the driver "
+                  "for any tables. PARTIAL: inputs that lose text (F1) are covered by correspondence and "
                   "the Python oracle only. Table facts (left associativity of OR/AND) are "
                   "checked by computation on the generated tables on every run.",
     "trusted_base": [
